@@ -9,13 +9,14 @@ ENG = Sym()
 class Abort(Exception): pass
 class Ctx:
     cur = None
+    base = []
     def __init__(self, prefix): self.prefix, self.taken, self.pc, self.pending = list(prefix), [], [], []
     def decide(self, term):
         if is_c(term): return bool(term)
         i = len(self.taken)
         if i < len(self.prefix): v = self.prefix[i]
         else:
-            s = z3.Solver(); s.add(*ENG.assumes); s.add(*self.pc)
+            s = z3.Solver(); s.add(*ENG.assumes); s.add(*Ctx.base); s.add(*self.pc)
             s.push(); s.add(term); t_ok = s.check() == z3.sat; s.pop()
             s.push(); s.add(z3.Not(term)); f_ok = s.check() == z3.sat; s.pop()
             if t_ok and f_ok: self.pending.append(self.taken + [False]); v = True
